@@ -17,6 +17,7 @@ def samples(role, name, ty, custom):
     t = ty.replace(' ', '')
     inner = re.sub(r'^Option<(.*)>$', r'\1', t)
     alt = []
+    if role == 'removal' and name in ('Sources', 'Binaries'): return ['\\nfoo_1.0-1\\nbar_2:0.9~rc1-1+b1', '\\nlibfoo1_1.0-1 [amd64, i386]\\nfoo-doc_1.0-1 [all]', '\\nfoo_1.0-1 [source]']   # one item per line; an item may list architectures with commas
     if name == 'Description': alt = ['only a summary', 'summary\\n .\\n after an empty line']
     elif name == 'Files': alt = ['*', 'src/*.c\\nsrc/?.h\\ndebian/*']
     elif name == 'Copyright': alt = ['2020 A', '2019-2021 A <a@example.com>\\n2021 B']
